@@ -59,7 +59,7 @@ JTrue == N("jbool", "True", <<>>)
 ReservedKeys == {"_is_task", "_is_enum", "_is_dict"}
 HasReservedKey(v) == \E i \in DOMAIN Kids(v) : i % 2 = 1 /\ Atom(Kids(v)[i]) \in ReservedKeys
 
-EnumClass(a) == CHOOSE c \in {"me.E1", "me.E2"} : \E i \in 1..Len(a) : SubSeq(a, 1, i) = c
+EnumClass(a) == CHOOSE c \in {"me.E1", "me.E2", "me.E3", "me.E4"} : \E i \in 1..Len(a) : SubSeq(a, 1, i) = c
 EnumMember(a) == SubSeq(a, Len(EnumClass(a)) + 2, Len(a))
 
 RECURSIVE Ser(_)
@@ -113,6 +113,8 @@ TasksIn(v) ==
 RECURSIVE Canon(_)
 Canon(v) == IF Kind(v) \in {"bool", "int", "float"}
             THEN N("num", IF Atom(v) \in {"True", "1", "1.0"} THEN "1" ELSE IF Atom(v) \in {"False", "0", "0.0"} THEN "0" ELSE Atom(v), <<>>)
+            ELSE IF v = N("enum", "me.E3.ONE", <<>>) THEN N("num", "1", <<>>)        \* an IntEnum member equals its int value,
+            ELSE IF v = N("enum", "me.E4.A", <<>>) THEN N("str", "a", <<>>)           \* a str-mixin member its str value
             ELSE N(Kind(v), Atom(v), [i \in DOMAIN Kids(v) |-> Canon(Kids(v)[i])])
 RECURSIVE DedupSeq(_, _)
 DedupSeq(s, acc) == IF s = <<>> THEN acc
@@ -132,11 +134,12 @@ Key(t) == Ser(t)              \* sha1 and json.dumps are trusted to be injective
 (* ---- the bounded grammar ---- *)
 Atoms == { N("none", "None", <<>>), N("str", "a", <<>>), N("str", "", <<>>), N("str", "1", <<>>),
            N("bool", "True", <<>>), N("int", "1", <<>>), N("float", "1.0", <<>>), N("int", "0", <<>>),
-           N("enum", "me.E1.A", <<>>), N("enum", "me.E1.B", <<>>), N("enum", "me.E2.A", <<>>) }
+           N("enum", "me.E1.A", <<>>), N("enum", "me.E1.B", <<>>), N("enum", "me.E2.A", <<>>),
+           N("enum", "me.E3.ONE", <<>>), N("enum", "me.E4.A", <<>>) }       \* members of scalar-mixin enums (IntEnum, str + Enum)
 SmallAtoms == { N("str", "a", <<>>), N("int", "1", <<>>), N("bool", "True", <<>>), N("enum", "me.E1.A", <<>>) }
 Unsupported == { N("set", "", <<>>), N("bytes", "b", <<>>), N("obj", "", <<>>) }
 KeyNodes == { N("str", "k", <<>>), N("str", "_is_task", <<>>), N("str", "__class__", <<>>), N("str", "_is_enum", <<>>),
-              N("str", "name", <<>>), N("int", "1", <<>>) }
+              N("str", "name", <<>>), N("int", "1", <<>>), N("str", "_is_dict", <<>>), N("str", "items", <<>>) }
 Types == {"m1.T", "m2.T", "m1.TX", "m1.TSub", "m1.T_", "m1.T__V"}       \* same-named type in another module; prefix-named type and subclass; names with trailing / double underscore
 
 Seqs(S, n) == UNION {[1..k -> S] : k \in 0..n}
@@ -144,12 +147,13 @@ Colls(S) ==                                   \* raw collections over the elemen
   {N(k, "", c) : k \in {"list", "tuple"}, c \in Seqs(S, 2)}
   \cup {N(k, "", <<>>) : k \in {"dict", "fdict"}}
   \cup {N(k, "", <<key, val>>) : k \in {"dict", "fdict"}, key \in KeyNodes, val \in S}
-  \cup {N("dict", "", <<k1, v1, k2, v2>>) : k1 \in {N("str", "k", <<>>), N("str", "_is_task", <<>>), N("str", "_is_enum", <<>>)},
-                                            k2 \in {N("str", "__class__", <<>>), N("str", "name", <<>>)}, v1 \in {N("bool", "True", <<>>)},
-                                            v2 \in {N("str", "m1.T", <<>>), N("str", "A", <<>>)}}
+  \cup {N("dict", "", <<k1, v1, k2, v2>>) : k1 \in {N("str", "k", <<>>), N("str", "_is_task", <<>>), N("str", "_is_enum", <<>>), N("str", "_is_dict", <<>>)},
+                                            k2 \in {N("str", "__class__", <<>>), N("str", "name", <<>>), N("str", "items", <<>>)}, v1 \in {N("bool", "True", <<>>)},
+                                            v2 \in {N("str", "m1.T", <<>>), N("str", "A", <<>>), N("dict", "", <<N("str", "k", <<>>), N("int", "1", <<>>)>>)}}
 Raw1 == Atoms \cup Unsupported \cup Colls(SmallAtoms \cup Unsupported)
 LeafTasks == {Build(ty, <<a>>) : ty \in {"m1.T", "m2.T", "m1.TX"},
-                                 a \in {N("int", "1", <<>>), N("float", "1.0", <<>>), N("bool", "True", <<>>), N("str", "a", <<>>)}}
+                                 a \in {N("int", "1", <<>>), N("float", "1.0", <<>>), N("bool", "True", <<>>), N("str", "a", <<>>),
+                                        N("enum", "me.E3.ONE", <<>>)}}
 Raw2 == Raw1 \cup LeafTasks \cup Colls(LeafTasks \cup {N("int", "1", <<>>)})
         \cup {N("tuple", "", <<c>>) : c \in Colls({N("int", "1", <<>>), N("enum", "me.E1.A", <<>>)} \cup
                                                    {Build("m1.T", <<N("int", "1", <<>>)>>)})}
